@@ -2,12 +2,11 @@ CONSTANTS
   KeyMode = "full"
   Tier = "quick"
   MaxCalls = 3
-  Free = FALSE
+  Free = TRUE
   Bug = "none"
 INIT Init
 NEXT Next
 INVARIANT EveryCallIsTheMeaning
 INVARIANT ModelWalkAccepted
 INVARIANT CacheCoherent
-INVARIANT Emit
 CHECK_DEADLOCK FALSE
